@@ -60,6 +60,9 @@ class Report:
             return
         if any(c == case for c, _, _ in self.violations):
             return
+        if len(self.violations) >= 40:  # keep the output readable; the count stays exact
+            self.coverage["violations_not_listed"] = self.coverage.get("violations_not_listed", 0) + 1
+            return
         d = os.path.join(VERIF, "replays")
         os.makedirs(d, exist_ok=True)
         import hashlib
